@@ -74,7 +74,9 @@ fn plan_c01(thorough: bool) -> Plan {
     if thorough {
         // 3 commits with ≤ 2 deviations, and 2 commits with ≤ 3 (sized to finish within the budget)
         cases.extend(enum_commit_histories(3, 6, 2, &a_full, &mk_case("empty", vec!["U1"], &cfg, "values", false)));
-        cases.extend(enum_commit_histories(2, 6, 3, &a_full, &mk_case("empty", vec!["U1"], &cfg, "values", false)));
+        // (three deviations with the mid-size alphabet: the full one would be half a million histories)
+        let a_mid = acts(&[("r", None), ("d", None), ("w", Some(1)), ("w", Some(1333)), ("w", Some(70000)), ("rw", Some(1)), ("rd", None)]);
+        cases.extend(enum_commit_histories(2, 6, 3, &a_mid, &mk_case("empty", vec!["U1"], &cfg, "values", false)));
     } else {
         cases.extend(enum_commit_histories(2, 6, 2, &a_full, &mk_case("empty", vec!["U1"], &cfg, "values", false)));
     }
@@ -90,7 +92,7 @@ fn plan_c01(thorough: bool) -> Plan {
         ("rw", Some(1300)),
         ("w", Some(70000)),
     ]);
-    let (d, b) = if thorough { (3, 3) } else { (2, 2) };
+    let (d, b) = if thorough { (3, 2) } else { (2, 2) };
     cases.extend(enum_commit_histories(
         d,
         6,
@@ -146,7 +148,7 @@ fn plan_c01(thorough: bool) -> Plan {
     let mut cfg3 = cfg_small();
     cfg3.cc = 3;
     cases.extend(enum_commit_histories(2, 6, if thorough { 3 } else { 1 }, &a_br, &mk_case("branch", vec!["seed:0,1,299,300,598,599"], &cfg3, "values", false)));
-    add_quiet(&mut cases, if thorough { 1 } else { 4 });
+    add_quiet(&mut cases, if thorough { 2 } else { 4 });
     sort_by_bound(&mut cases);
     let mut p = Plan::new(
         cases,
